@@ -45,11 +45,16 @@ def run(ctx):
     traces += tk
     ncases += nk
     # the same scripts over loopback TCP into a real server.Hertz with the real transports (fragmentation not controllable)
+    tcp_cases = os.path.join(ctx.scratch, "tcp.ndjson")      # (cases that need a configured body limit stay in memory)
+    with open(cases) as f, open(tcp_cases, "w") as g:
+        for line in f:
+            if '"fault"' not in line:
+                g.write(line)
     nets = ["netpoll"] if ctx.quick else ["netpoll", "standard"]
     ntcp = 0
     for kind in nets:
         o = ctx.sub("traces_" + kind)
-        t, k = h1common.run_h1srv(ctx, drv, cases, o, idle="inloop", cuts="whole" if ctx.quick else "whole,rand2x5", extra=["-net", kind])
+        t, k = h1common.run_h1srv(ctx, drv, tcp_cases, o, idle="inloop", cuts="whole" if ctx.quick else "whole,rand2x5", extra=["-net", kind])
         traces += t
         ntcp += k
     ncases += ntcp
@@ -91,8 +96,9 @@ def run(ctx):
         return recs
     big = sorted([t for t in traces if "/traces/" in t], key=os.path.getsize, reverse=True)
     lib.self_test(ctx, "H1ServerTrace", "H1ServerTrace.cfg", big, foreign_body, name="one body byte taken from another request", ncases=60)
-    lib.self_test(ctx, "H1ServerTrace", "H1ServerTrace.cfg", big, swap_responses, name="two responses swapped", ncases=1500)
-    lib.self_test(ctx, "H1ServerTrace", "H1ServerTrace.cfg", big, drop_handle, name="second pipelined request never handled", ncases=1500)
+    multi_first = sorted([t for t in traces if "/traces/" in t], reverse=True)      # the pipelined scripts come last in case order
+    lib.self_test(ctx, "H1ServerTrace", "H1ServerTrace.cfg", multi_first, swap_responses, name="two responses swapped", ncases=1500, tail=True)
+    lib.self_test(ctx, "H1ServerTrace", "H1ServerTrace.cfg", multi_first, drop_handle, name="second pipelined request never handled", ncases=1500, tail=True)
     lib.self_test(ctx, "H1ServerTrace", "H1ServerTrace.cfg", big, decoy_moves_end, name="body shortened as if a decoy length were honoured", ncases=60)
 
     cnt = h1common.event_counts(traces, ["Handle", "Response", "Deliver"])
